@@ -135,7 +135,7 @@ def gstep (G : GFns α) (y w de llasPow : List α) (robust : Bool) (n : α) (it 
   if robust then
     match b'.ytemp with
     | none => none
-    | some yt => some (b', robustStep G y yt (mul2 w st.2.1) de st.2.1 b'.lam n, st.2.2 ++ [b'])
+    | some yt => some (b', robustStep G y yt (mul2 w st.2.1) de st.2.1 w b'.lam n, st.2.2 ++ [b'])
   else some (b', st.2.1, st.2.2 ++ [b'])
 
 theorem gcvIter_zero (G : GFns α) (y w de llasPow : List α) (robust : Bool) (n : α) (it : ℕ)
@@ -155,13 +155,13 @@ theorem gcvIter_succ (G : GFns α) (y w de llasPow : List α) (robust : Bool) (n
           (match b'.ytemp with
             | none => none
             | some yt => gcvIter G y w de llasPow true n k (it + 1) b'
-                (robustStep G y yt (mul2 w rw) de rw b'.lam n) (hist ++ [b'])) := by
+                (robustStep G y yt (mul2 w rw) de rw w b'.lam n) (hist ++ [b'])) := by
       intro b' hb'; subst hb'; rfl
     have key2 : ∀ b' : Best α, b' = gcvSweep G y (mul2 w rw) de (iterLams llasPow it hist) b →
         gstep G y w de llasPow true n it (b, rw, hist) =
           (match b'.ytemp with
             | none => none
-            | some yt => some (b', robustStep G y yt (mul2 w rw) de rw b'.lam n, hist ++ [b'])) := by
+            | some yt => some (b', robustStep G y yt (mul2 w rw) de rw w b'.lam n, hist ++ [b'])) := by
       intro b' hb'; subst hb'; rfl
     rw [key _ rfl, key2 _ rfl]
     generalize gcvSweep G y (mul2 w rw) de (iterLams llasPow it hist) b = b'
@@ -221,13 +221,42 @@ def bisq (G : GFns α) (scale ri : α) : α :=
   else if 1 < |ri / scale / G.c2| then 0
   else (1 - (ri / scale / G.c2) * (ri / scale / G.c2)) * (1 - (ri / scale / G.c2) * (ri / scale / G.c2))
 
-theorem robustStep_eq (G : GFns α) (y ytemp wt de rw : List α) (s n : α) :
-    robustStep G y ytemp wt de rw s n =
-      if 0 < madOf y ytemp wt then
-        (sub2 y ytemp).map (bisq G (G.c1 * madOf y ytemp wt * G.sqrt (1 - sumF (gammaOf wt de s) / n)))
+/-- the valid cells of `y` (those with non-zero validity weight) -/
+def yvOf (y w : List α) : List α :=
+  ((y.zip w).filter fun (_, wi) => !(eqv wi (nat 0))).map (·.1)
+
+/-- the MAD threshold of `robustStep`: `madtol · (1 + max − min)` over the valid cells -/
+def madMinOf (G : GFns α) (y w : List α) : α :=
+  G.madtol * (1 + (maxL (yvOf y w) - minL (yvOf y w)))
+
+/-- number of positive entries -/
+def countPos (l : List α) : ℕ := (l.filter fun x => decide (0 < x)).length
+
+/-- at least two positive entries -/
+def TwoPos (w : List α) : Prop := ∃ i j, i < j ∧ j < w.length ∧ 0 < fn w i ∧ 0 < fn w j
+
+/-- the candidate new robust weights -/
+def rnewOf (G : GFns α) (y ytemp wt de : List α) (s n : α) : List α :=
+  (sub2 y ytemp).map (bisq G (G.c1 * madOf y ytemp wt * G.sqrt (1 - sumF (gammaOf wt de s) / n)))
+
+theorem robustStep_eq (G : GFns α) (y ytemp wt de rw w : List α) (s n : α) :
+    robustStep G y ytemp wt de rw w s n =
+      if madMinOf G y w < madOf y ytemp wt then
+        (if 1 < countPos (mul2 w (rnewOf G y ytemp wt de s n)) then rnewOf G y ytemp wt de s n else rw)
       else rw := by
-  unfold robustStep madOf rselOf bisq
+  unfold robustStep madMinOf yvOf countPos rnewOf madOf rselOf bisq
   simp only [nat_zero, nat_one, absv_eq]
+
+theorem twoPos_of_countPos (l : List α) (h : 1 < countPos l) : TwoPos l := by
+  have h2 : 2 ≤ countValid (fun x => !decide (0 < x)) l := by
+    unfold countValid
+    have : (fun x : α => !(fun x => !decide (0 < x)) x) = fun x => decide (0 < x) := by
+      funext x; simp
+    rw [this]; exact h
+  obtain ⟨i, j, hij, hj, h1, h2⟩ := exists_two_valid _ l h2
+  refine ⟨i, j, hij, hj, ?_, ?_⟩
+  · rw [fn_of_lt _ i (by omega)]; simpa using h1
+  · rw [fn_of_lt _ j hj]; simpa using h2
 
 theorem bisq_range (G : GFns α) (scale ri : α) : 0 ≤ bisq G scale ri ∧ bisq G scale ri ≤ 1 := by
   unfold bisq
@@ -245,16 +274,40 @@ theorem bisq_range (G : GFns α) (scale ri : α) : 0 ≤ bisq G scale ri ∧ bis
     have h7 : 1 - t * t ≤ 1 := by linarith
     exact ⟨mul_nonneg h6 h6, by nlinarith⟩
 
-theorem robustStep_range (G : GFns α) (y ytemp wt de rw : List α) (s n : α)
+theorem rnewOf_range (G : GFns α) (y ytemp wt de : List α) (s n : α) :
+    ∀ x ∈ rnewOf G y ytemp wt de s n, 0 ≤ x ∧ x ≤ 1 := by
+  intro x hx
+  unfold rnewOf at hx
+  rw [List.mem_map] at hx
+  obtain ⟨r, _, rfl⟩ := hx
+  exact bisq_range G _ r
+
+theorem robustStep_range (G : GFns α) (y ytemp wt de rw w : List α) (s n : α)
     (h : ∀ x ∈ rw, 0 ≤ x ∧ x ≤ 1) :
-    ∀ x ∈ robustStep G y ytemp wt de rw s n, 0 ≤ x ∧ x ≤ 1 := by
+    ∀ x ∈ robustStep G y ytemp wt de rw w s n, 0 ≤ x ∧ x ≤ 1 := by
   rw [robustStep_eq]
   split_ifs
-  · intro x hx
-    rw [List.mem_map] at hx
-    obtain ⟨r, _, rfl⟩ := hx
-    exact bisq_range G _ r
+  · exact rnewOf_range G y ytemp wt de s n
   · exact h
+  · exact h
+
+/-- the guard of the step: two positively weighted cells are never lost -/
+theorem robustStep_two_pos (G : GFns α) (y ytemp wt de rw w : List α) (s n : α)
+    (h : TwoPos (mul2 w rw)) : TwoPos (mul2 w (robustStep G y ytemp wt de rw w s n)) := by
+  rw [robustStep_eq]
+  split_ifs with h1 h2
+  · exact twoPos_of_countPos _ h2
+  · exact h
+  · exact h
+
+theorem robustStep_length (G : GFns α) (y ytemp wt de rw w : List α) (s n : α)
+    (hy : ytemp.length = y.length) (hr : rw.length = y.length) :
+    (robustStep G y ytemp wt de rw w s n).length = y.length := by
+  rw [robustStep_eq]
+  split_ifs
+  · simp [rnewOf, hy]
+  · exact hr
+  · exact hr
 
 /-! ### robust = true: the steps -/
 
@@ -263,7 +316,7 @@ theorem gstep_robust_some (G : GFns α) (y w de llasPow : List α) (n : α) (it 
     st'.1 = gcvSweep G y (mul2 w st.2.1) de (iterLams llasPow it st.2.2) st.1 ∧
     st'.2.2 = st.2.2 ++ [st'.1] ∧
     ∃ yt, st'.1.ytemp = some yt ∧
-      st'.2.1 = robustStep G y yt (mul2 w st.2.1) de st.2.1 st'.1.lam n := by
+      st'.2.1 = robustStep G y yt (mul2 w st.2.1) de st.2.1 w st'.1.lam n := by
   unfold gstep at h
   simp only [if_true] at h
   generalize gcvSweep G y (mul2 w st.2.1) de (iterLams llasPow it st.2.2) st.1 = b' at h
